@@ -49,6 +49,7 @@ type ItemResult struct {
 	SampleObl    string
 	IfConverted  int
 	UFCongruence int
+	CollisionOnly int // satisfiable only through collisions of uninterpreted functions: not counterexamples
 	Relaxed      int // obligations discharged in the real rounding-error model
 	WallS        float64
 }
@@ -413,7 +414,23 @@ func (ex *Exec) modelFor(st *State, extra *Term) (string, []ReplayVal) {
 	res, model := ex.sol.Check(ex.ctx, as, true)
 	if res == "sat" && len(ex.ctx.Axioms) > 0 {
 		// UF inverse axioms are only brought in to confirm a satisfiable answer (unsat without them stays unsat with them)
-		res, model = ex.sol.Check(ex.ctx, append(as, ex.ctx.Axioms...), true)
+		as = append(as, ex.ctx.Axioms...)
+		res, model = ex.sol.Check(ex.ctx, as, true)
+	}
+	if res == "sat" && extra != nil {
+		// counterexamples must not live on collisions of the uninterpreted CMAC / AES functions (a real replay would
+		// not show them): prefer a model in which applications with different arguments differ in every 16-bit half.
+		// If no such model exists the counterexample exists only through collisions and is not reported.
+		if g := ex.ufGeneric(st); g != nil {
+			r2, m2 := ex.sol.Check(ex.ctx, append(append([]*Term(nil), as...), g...), true)
+			switch r2 {
+			case "sat":
+				model = m2
+			case "unsat":
+				ex.res.CollisionOnly++
+				return "unsat", nil
+			}
+		}
 	}
 	if res != "sat" {
 		return res, nil
@@ -427,6 +444,38 @@ func (ex *Exec) modelFor(st *State, extra *Term) (string, []ReplayVal) {
 		vals[i] = ReplayVal{Name: nv.Name, Bits: bits, Val: model[nv.T.Name]}
 	}
 	return res, vals
+}
+
+// ufGeneric: for every pair of applications of the same uninterpreted function on this path:
+// arguments equal, or the results differ in every 16-bit half.
+func (ex *Exec) ufGeneric(st *State) []*Term {
+	c := ex.ctx
+	apps := st.ufApps
+	if len(apps) < 2 || len(apps) > 40 {
+		return nil
+	}
+	var out []*Term
+	for i := 0; i < len(apps); i++ {
+		for j := i + 1; j < len(apps); j++ {
+			a, b := apps[i], apps[j]
+			if a.Name != b.Name || len(a.Args) != len(b.Args) || a.S != b.S || a.S.W%16 != 0 {
+				continue
+			}
+			eq := c.True
+			for k := range a.Args {
+				eq = c.And(eq, ex.eqParts(a.Args[k], b.Args[k]))
+			}
+			if eq.IsTrue() {
+				continue
+			}
+			diff := c.True
+			for h := 0; h < a.S.W/16; h++ {
+				diff = c.And(diff, c.Not(c.Eq(c.Extract(a, 16*h+15, 16*h), c.Extract(b, 16*h+15, 16*h))))
+			}
+			out = append(out, c.Or(eq, diff))
+		}
+	}
+	return out
 }
 
 func (ex *Exec) posOf(st *State) string {
